@@ -70,3 +70,15 @@ def expect_sites(name, pattern, allowed, sub="base/src"):
     if extra:
         return False, f"{name}: site(s) not under contract: " + "; ".join(f"{f}:{ln} in {fn}: {t[:60]}" for (f, fn, ln, t) in extra[:5]), len(found)
     return True, f"{len(found)} sites, all under contract", len(found)
+
+
+# ---------------------------------------------------------------- property scans
+@scan("history-writers")
+def _history_writers():
+    """Only the functions under contract in unit `queue` (and the constructors) may touch the undo/redo
+    stacks or the outgoing queue; apply_*_diff_list (assumed frame) must not mention them at all."""
+    allowed = {("base/src/user_model/common.rs", f) for f in
+               ["undo", "redo", "can_undo", "can_redo", "flush_send_queue", "push_diff_list",
+                "new", "from_model", "from_bytes", "new_empty"]}
+    allowed |= {("base/src/user_model/history.rs", f) for f in ["push", "undo", "redo"]}
+    return expect_sites("history-writers", r"\.\s*(send_queue|undo_stack|redo_stack|history)\b", allowed)
